@@ -328,3 +328,52 @@ TRUSTED_BASE = [
     "extraction with ExtrOcamlBasic only (bool, option, unit, list, prod, sumbool to OCaml natives); no Extract Constant of our own",
     "OCaml driver (ocaml/*.ml), Rust harness (harness/), Python generators (gen/), rustc/cargo, ocamlfind ocamlopt",
 ]
+
+
+# ------------------------------------------------------------------ shrinking of `;`-separated histories
+REGEX_YIELD = ("none", "eps", "all", "allchar", "splus", "char", "range", "charset", "smtrange", "str", "concat",
+               "concatl", "union", "unionl", "inter", "interl", "comp", "diff", "diffl", "star", "plus", "opt",
+               "pow", "loop", "loopinf", "deriv", "sderiv", "classder", "setder")
+
+
+def shrink_history(exe, engine, case, kind, budget=80):
+    """greedy statement-level shrinking; keeps the case BAD.  kind: "regex" (statements that yield a value
+    are replaced by `none` so that indices stay valid) or "automata" (statements can simply be dropped)."""
+    prefix = ""
+    body = case
+    if case.startswith("W "):
+        prefix, body = "W ", case[2:]
+    stmts = body.split(" ; ")
+
+    def run(st):
+        c = prefix + " ; ".join(st)
+        r = run_cases(exe, engine, [c], "shrink")
+        return r[0]
+
+    best = run(stmts)
+    if best[2] != "BAD":
+        return case, best[1], best[3], best[4]
+    tries = 0
+    # 1. cut everything after the failing statement (message says "statement k")
+    m = re.search(r"statement (\d+)", best[4] or "")
+    if m and int(m.group(1)) + 1 < len(stmts):
+        cand = stmts[:int(m.group(1)) + 1]
+        r = run(cand); tries += 1
+        if r[2] == "BAD":
+            stmts, best = cand, r
+    # 2. drop / neutralise statements from the back
+    i = len(stmts) - 2
+    while i >= 0 and tries < budget:
+        op = stmts[i].split()[0] if stmts[i].split() else ""
+        if kind == "regex" and op in REGEX_YIELD:
+            cand = stmts[:i] + ["none"] + stmts[i + 1:] if stmts[i] != "none" else None
+        elif kind == "automata" and op in ("new", "build", "buildu"):
+            cand = None
+        else:
+            cand = stmts[:i] + stmts[i + 1:]
+        if cand is not None:
+            r = run(cand); tries += 1
+            if r[2] == "BAD":
+                stmts, best = cand, r
+        i -= 1
+    return prefix + " ; ".join(stmts), best[1], best[3], best[4]
